@@ -1,6 +1,8 @@
 package props
 
 import (
+	"strings"
+	"encoding/base64"
 	"bytes"
 	"context"
 	"encoding/json"
@@ -28,6 +30,58 @@ func runC18(c *h.Ctx) {
 	c.Note("native_flavour_bound", verifbridge.NativeFlavour())
 	c.Note("portable", verifbridge.Portable)
 	c.Cover("flavour_bound_" + verifbridge.NativeFlavour())
+
+	// ---- (a0) DoInto with a caller's buffer that already holds bytes and has less free room than the document is
+	// long (every flavour has to move to a larger buffer): same bytes behind the prefix, and no flavour stores
+	// behind the capacity of the caller's buffer (canary region behind cap)
+	var preDesc *thrift.TypeDescriptor
+	c.Run("j2t-prefilled-join", c.N(600, 12000), func(cs *h.Case) {
+		if preDesc == nil {
+			svc, err := thrift.NewDescritorFromContent(context.Background(), "pre.thrift", "namespace go verif\nstruct S { 1: string A, 6: binary F, 7: list<i32> L }\nservice Svc { S M(1: S req) }\n", nil, false)
+			if err != nil {
+				cs.Viol("flavour:parse-idl", "err", err)
+				return
+			}
+			preDesc, _ = RootOf(svc, "M")
+		}
+		blob := cs.R.Bytes([]int{0, 5, 100, 700, 1500, 4000}[cs.R.Intn(6)] + cs.R.Intn(30))
+		doc := fmt.Sprintf(`{"A":"%s","F":"%s","L":[%d]}`, strings.Repeat("a", cs.R.Intn(20)), base64.StdEncoding.EncodeToString(blob), cs.R.Intn(100))
+		prefix := []int{1, 16, 300, 2600, 4000, 9000}[cs.R.Intn(6)] + cs.R.Intn(8)
+		capN := prefix + cs.R.Intn(len(doc)) // free room < len(doc)
+		if cs.R.Chance(30) {
+			capN = prefix + cs.R.Intn(5)
+		}
+		const canaryLen = 16 << 10
+		tr := h.TrapCopy(make([]byte, capN+canaryLen), false, false)
+		defer tr.Free()
+		for i := range tr.B {
+			tr.B[i] = 0xa5
+		}
+		buf := tr.B[0:prefix:capN]
+		cv := j2t.NewBinaryConv(conv.Options{})
+		err := cv.DoInto(context.Background(), preDesc, []byte(doc), &buf)
+		behind := 0
+		for i := capN; i < len(tr.B); i++ {
+			if tr.B[i] != 0xa5 {
+				behind++
+			}
+		}
+		cs.Info("shape", fmt.Sprintf("doc=%d blob=%d prefix=%d cap=%d", len(doc), len(blob), prefix, capN))
+		if behind > 0 {
+			cs.Viol("flavour:j2t-prefilled:stored-behind-capacity", "bytes", behind)
+			return
+		}
+		res := fmt.Sprintf("err=%v", err != nil)
+		if err == nil {
+			if len(buf) < prefix || bytes.Count(buf[:prefix], []byte{0xa5}) != prefix {
+				cs.Viol("flavour:j2t-prefilled:prefix-clobbered", "prefix", prefix)
+				return
+			}
+			res += " out=" + h.Sha(buf[prefix:])
+		}
+		cs.Res("j2t-prefilled", res)
+		cs.Cover("j2t_prefilled_cases")
+	})
 
 	// ---- (a') api.js_conv value mapping in every flavour (the inline native writer vs the Go fallback)
 	c.Run("j2t-jsconv-join", c.N(1500, 40000), func(cs *h.Case) {
